@@ -87,7 +87,19 @@ func rootDir() string {
 	return "/verif"
 }
 
-func workDir() string { return filepath.Join(Root, ".work") }
+func workDir() string {
+	if v := os.Getenv("VERIF_WORK"); v != "" {
+		return v
+	}
+	return filepath.Join(Root, ".work")
+}
+
+func evidenceDir() string {
+	if os.Getenv("VERIF_WORK") != "" {
+		return filepath.Join(workDir(), "evidence") // runs against a scratch repository never touch /verif/evidence
+	}
+	return filepath.Join(Root, "evidence")
+}
 
 // ------------------------------------------------------------------ known findings
 
@@ -514,6 +526,30 @@ func Check(p Property, c *Ctx) int {
 			fmt.Printf("KNOWN-FINDING-STALE: property=%s %s witness %s: %s\n", p.ID(), f.ID, f.Witness, head(note, 300))
 		}
 	}
+	// regression corpus: the witnesses of repaired defects must hold; a fixed entry suppresses nothing
+	var regress []Result
+	for i := range ff.Findings {
+		f := &ff.Findings[i]
+		if f.Property != p.ID() || f.Status != "fixed" || f.Witness == "" {
+			continue
+		}
+		rs, crash := runWitness(p, c, f)
+		witnessStill[f.ID] = false
+		for _, r := range rs {
+			if r.Verdict == Violated {
+				r.Symptom = "regression of " + f.ID + " (" + f.Commit + "): " + r.Symptom
+				r.Case = -2
+				regress = append(regress, r)
+				witnessStill[f.ID] = true
+			}
+		}
+		if crash != nil {
+			crash.Symptom = "regression of " + f.ID + " (" + f.Commit + "): " + crash.Symptom
+			crash.Case = -2
+			regress = append(regress, *crash)
+			witnessStill[f.ID] = true
+		}
+	}
 	n := p.NumCases(c)
 	bs := 0
 	if b, ok := p.(Batcher); ok {
@@ -619,6 +655,7 @@ func Check(p Property, c *Ctx) int {
 	}
 	wg.Wait()
 
+	all = append(all, regress...)
 	// race logs
 	races := ParseRaceLogs(filepath.Join(workDir(), "race", p.ID()))
 	raceSigs := map[string]int{}
@@ -821,9 +858,9 @@ func finish(p Property, c *Ctx, ff *FindingsFile, all []Result, start time.Time,
 		"wall_s":      time.Since(start).Seconds(),
 		"violations":  len(unlisted),
 	}
-	os.MkdirAll(filepath.Join(Root, "evidence"), 0o755)
+	os.MkdirAll(evidenceDir(), 0o755)
 	b, _ := json.MarshalIndent(ev, "", " ")
-	os.WriteFile(filepath.Join(Root, "evidence", p.ID()+".json"), b, 0o644)
+	os.WriteFile(filepath.Join(evidenceDir(), p.ID()+".json"), b, 0o644)
 	fmt.Printf("%s %s seed=%d: %d evaluations, %d distinct non-trivial, verdicts=%v, known=%v, unlisted violations=%d, wall=%.1fs\n",
 		p.ID(), c.Tier, c.Seed, evaluations, len(distinct), verdicts, knownHits, len(unlisted), time.Since(start).Seconds())
 	if len(unlisted) > 0 {
@@ -899,6 +936,39 @@ func WorkerWitness(p Property, c *Ctx, witness, journal, out string) int {
 	jf.Close()
 	of.Close()
 	return 0
+}
+
+// runWitness executes a witness file in a child process; crash is non-nil when the child died.
+func runWitness(p Property, c *Ctx, f *Finding) (rs []Result, crash *Result) {
+	path := filepath.Join(Root, f.Witness)
+	dir := filepath.Join(workDir(), "run", p.ID())
+	os.MkdirAll(dir, 0o755)
+	base := filepath.Join(dir, "witness-"+f.ID)
+	cmd := exec.Command(selfExe(false), "worker", "--prop", p.ID(), "--tier", c.Tier, "--seed", strconv.FormatInt(c.Seed, 10),
+		"--witness", path, "--journal", base+".journal", "--out", base+".out")
+	ef, _ := os.Create(base + ".stderr")
+	cmd.Stdout, cmd.Stderr = ef, ef
+	cmd.Env = append(os.Environ(), "GORACE=halt_on_error=0 exitcode=0 log_path="+base+".race", "GOTRACEBACK=all")
+	done := make(chan error, 1)
+	if err := cmd.Start(); err != nil {
+		return nil, nil
+	}
+	go func() { done <- cmd.Wait() }()
+	select {
+	case <-done:
+	case <-time.After(2 * time.Minute):
+		cmd.Process.Kill()
+		<-done
+		return nil, nil
+	}
+	ef.Close()
+	rs = readResults(base + ".out")
+	_, spec, finished := readJournal(base + ".journal")
+	if !finished {
+		eb, _ := os.ReadFile(base + ".stderr")
+		crash = &Result{Verdict: Violated, Symptom: CrashSymptom(string(eb)), Message: tail(string(eb), 2000), Spec: spec, Tags: []string{"process-death"}}
+	}
+	return rs, crash
 }
 
 // replayWitness runs one known-finding witness in a child and reports whether it still violates.
